@@ -177,6 +177,62 @@ Definition kex_hashes_match_spec : bool :=
                     | None => false
                     end) gen_kex_hashes.
 
+(* ---- what the cipher / MAC NAMES are specified to mean (hand-written from the RFCs, by name) -------------
+   MAC: integrity key length (= digest length of the named hash), tag length on the wire.
+   RFC 4253 6.4, RFC 6668, OpenSSH PROTOCOL (-etm) *)
+Definition spec_macs : list (list Z * (Z * Z)) := [
+  (bytes_of "hmac-sha1"%string, (20, 20));
+  (bytes_of "hmac-sha1-96"%string, (20, 12));
+  (bytes_of "hmac-md5"%string, (16, 16));
+  (bytes_of "hmac-md5-96"%string, (16, 12));
+  (bytes_of "hmac-sha2-256"%string, (32, 32));
+  (bytes_of "hmac-sha2-512"%string, (64, 64));
+  (bytes_of "hmac-sha2-256-etm@openssh.com"%string, (32, 32));
+  (bytes_of "hmac-sha2-512-etm@openssh.com"%string, (64, 64));
+  (bytes_of "hmac-sha1-etm@openssh.com"%string, (20, 20));
+  (bytes_of "hmac-md5-etm@openssh.com"%string, (16, 16))
+].
+(* cipher: key length, IV length, block size.  RFC 4253 6.3, RFC 4344 4, RFC 5647 / OpenSSH PROTOCOL 1.6 *)
+Definition spec_ciphers : list (list Z * (Z * Z * Z)) := [
+  (bytes_of "aes128-ctr"%string, (16, 16, 16));
+  (bytes_of "aes192-ctr"%string, (24, 16, 16));
+  (bytes_of "aes256-ctr"%string, (32, 16, 16));
+  (bytes_of "aes128-cbc"%string, (16, 16, 16));
+  (bytes_of "aes192-cbc"%string, (24, 16, 16));
+  (bytes_of "aes256-cbc"%string, (32, 16, 16));
+  (bytes_of "3des-cbc"%string, (24, 8, 8));
+  (bytes_of "aes128-gcm@openssh.com"%string, (16, 12, 16));
+  (bytes_of "aes256-gcm@openssh.com"%string, (32, 12, 16))
+].
+
+Fixpoint lookup_name {A} (tbl : list (list Z * A)) (name : list Z) : option A :=
+  match tbl with
+  | [] => None
+  | (n, v) :: r => if zlist_eqb n name then Some v else lookup_name r name
+  end.
+
+Definition c_name (c : cipher_row) : list Z := let '(n, _, _, _, _) := c in n.
+Definition m_name (m : mac_row) : list Z := let '(n, _, _) := m in n.
+
+Definition mac_matches_spec (m : mac_row) : bool :=
+  match lookup_name spec_macs (m_name m) with
+  | Some (d, t) => (m_digest m =? d) && (m_size m =? t)
+  | None => false
+  end.
+Definition cipher_matches_spec (c : cipher_row) : bool :=
+  match lookup_name spec_ciphers (c_name c) with
+  | Some (k, iv, b) =>
+      (c_key c =? k) && (c_block c =? b) && ((match c_iv c with Some v => v | None => c_block c end) =? iv)
+  | None => false
+  end.
+Definition tables_match_spec : bool :=
+  forallb mac_matches_spec gen_macs && forallb cipher_matches_spec gen_ciphers.
+
+(* a (cipher, MAC) pair of the generated tables for which a client asks for (E, 64) as outbound MAC key *)
+Definition example_pair_exists : bool :=
+  existsb (fun c => existsb (fun m =>
+    let '(X, n) := requested Client Outbound MacKey c m in (X =? 69) && (n =? 64)) gen_macs) gen_ciphers.
+
 (* ---- toy hash for the correspondence run (the same function is defined in harness/c04.py) ---
    32-bit polynomial rolling state, expanded to hl output bytes *)
 Definition toy_mask : Z := 4294967295.
